@@ -754,6 +754,15 @@ func (parser *Parser) ParseInfix(depth int) (Sexp, error) {
 			break
 		}
 
+		if tok.typ == TokenSymbol && (tok.str == "-" || tok.str == "+") &&
+			len(arr) > 0 && parser.endsInfixOperand(arr[len(arr)-1]) {
+			// a + or - that follows an operand is the binary operator,
+			// also in front of Inf: {x - Inf} subtracts, it is not x; -Inf
+			_, _ = lexer.GetNextToken()
+			arr = append(arr, parser.env.MakeSymbol(tok.str))
+			continue
+		}
+
 		//Q("debug: ParseInfix(depth=%v) calling ParseExpression", depth)
 		expr, err := parser.ParseExpression(depth + 1)
 		if err != nil {
@@ -772,6 +781,23 @@ func (parser *Parser) ParseInfix(depth int) (Sexp, error) {
 	}
 	return &list, nil
 	//return &SexpArray{Val: arr, Infix: true, Env: env}, nil
+}
+
+// endsInfixOperand reports whether x, a token of an infix block, ends an
+// operand: a literal, a variable, a call, a nested block or an index; not
+// an operator, a keyword or a separator.
+func (parser *Parser) endsInfixOperand(x Sexp) bool {
+	switch v := x.(type) {
+	case *SexpSymbol:
+		if v.name == "else" || v.name == "range" || v.name == ":" {
+			return false
+		}
+		_, isOp := parser.env.infixOps[v.name]
+		return !isOp
+	case *SexpComma, *SexpSemicolon, *SexpComment:
+		return false
+	}
+	return true
 }
 
 // peekAfterSign looks at the token after a lone + or - (is it Inf?).
